@@ -118,10 +118,100 @@ def s02_polylines(ctx):
     return res
 
 
-STREAMS = [s02_lattice_pairs, s02_lattice_triples, s02_polylines]
+def s02_generated(ctx):
+    """translator validation: the REGENERATED Lean definitions (compiled into gen_c02) and the Python functions they were generated
+    from, run on the same inputs"""
+    import_fractopo()
+    from fractions import Fraction as Fr
+
+    from shapely.geometry import LineString, Point
+
+    from fractopo.general import determine_node_junctions, determine_valid_intersection_points, determine_valid_intersection_points_no_vnode
+    from harness.common import line as wline, lines as wlines, parse_line, parse_resp, rat, rng_for
+
+    res = StreamResult("S02-generated", rule="regenerated determine_node_junctions / determine_valid_intersection_points_no_vnode (Lean, compiled) vs the real "
+                       "functions: random node tuples on a lattice with coincident points, points 0.5 / 0.95 / 1.05 x the error distance apart, empty tuples, "
+                       "thresholds 1 and 2; random traces sharing ends / crossing; non-trivial = something marked / dropped")
+    if ctx.gen is None:
+        res.note = "gen_c02 not built (a generated module is broken): skipped"
+        res.skipped["generated_driver_not_built"] = 1
+        return res
+    rng = rng_for(ctx.seed, "S02g")
+    t, m = 0.01, 1.1
+    d = t * m
+    cases, reqs = [], []
+    for _ in range(budget(ctx.tier, 300, 5000)):
+        base = [(float(rng.randint(0, 4)), float(rng.randint(0, 4))) for _ in range(rng.randint(2, 6))]
+        nodes = []
+        for _ in range(rng.randint(1, 6)):
+            tup = []
+            for _ in range(rng.choice([0, 1, 2, 2, 3])):
+                bx, by = rng.choice(base)
+                off = rng.choice([0.0, 0.0, 0.5 * d, 0.95 * d, 1.05 * d, 3 * d])
+                if rng.random() < 0.5:
+                    tup.append((bx + off, by))
+                else:
+                    tup.append((bx, by - off))
+            nodes.append(tup)
+        thr = rng.choice([1, 2])
+        cases.append(("junctions", nodes, thr))
+        reqs.append(f"junctions thr={thr} d2={rat(Fr(d) * Fr(d))} nodes={wlines(nodes)}")
+    for _ in range(budget(ctx.tier, 200, 3000)):
+        pts = [(float(rng.randint(0, 5)), float(rng.randint(0, 5))) for _ in range(4)]
+        geom = [pts[0], pts[1]] if pts[0] != pts[1] else [pts[0], (pts[0][0] + 1.0, pts[0][1] + 2.0)]
+        cands = []
+        for _ in range(rng.randint(1, 4)):
+            a = rng.choice([geom[0], geom[1], (float(rng.randint(0, 5)), float(rng.randint(0, 5)))])
+            b = (float(rng.randint(0, 5)), float(rng.randint(0, 5)))
+            if a != b:
+                cands.append([a, b])
+        if not cands:
+            continue
+        cases.append(("interfilter", geom, cands))
+        reqs.append(None)
+    # the intersection points come from the real helper (GEOS); the filter stage is what is compared
+    import geopandas as gpd
+
+    for i, c in enumerate(cases):
+        if c[0] == "interfilter":
+            _, geom, cands = c
+            inter = determine_valid_intersection_points(gpd.GeoSeries([LineString(x) for x in cands]).intersection(LineString(geom)))
+            ip = [(p.x, p.y) for p in inter]
+            cases[i] = ("interfilter", geom, cands, ip)
+            reqs[i] = f"interfilter c2={rat(Fr(1, 10**8))} inter={wline(ip)} geom={wline(geom)} cands={wlines(cands)}"
+    resps = ctx.gen.parallel(reqs)
+    for c, resp in zip(cases, resps):
+        res.evaluations += 1
+        r = parse_resp(resp)
+        if c[0] == "junctions":
+            _, nodes, thr = c
+            want = sorted(determine_node_junctions([tuple(Point(p) for p in tup) for tup in nodes], t, m, thr))
+            got = sorted(int(x) for x in r.get("marked", "").split(",") if x)
+            res.distribution["junctions"] = res.distribution.get("junctions", 0) + 1
+            res.nontrivial += int(bool(want))
+            if got != want:
+                res.disagreements.append(Disagreement("S02-generated", {"stream": "S02-generated", "kind": "junctions", "nodes": nodes, "thr": thr}, got, want, None,
+                                                      "regenerated determine_node_junctions (Lean) and the Python function disagree: translator or prelude semantics wrong"))
+        else:
+            _, geom, cands, ip = c
+            want = [(p.x, p.y) for p in determine_valid_intersection_points_no_vnode(gpd.GeoSeries([LineString(x) for x in cands]), LineString(geom))]
+            got = [(float(x), float(y)) for x, y in parse_line(r.get("kept", ""))]
+            res.distribution["interfilter"] = res.distribution.get("interfilter", 0) + 1
+            res.nontrivial += int(len(want) != len(ip))
+            if got != want:
+                res.disagreements.append(Disagreement("S02-generated", {"stream": "S02-generated", "kind": "interfilter", "geom": geom, "cands": cands, "inter": ip}, got, want, None,
+                                                      "regenerated determine_valid_intersection_points_no_vnode (Lean) and the Python function disagree"))
+    res.samples = [{"request": reqs[0][:200], "response": resps[0][:100]}] if reqs else []
+    return res
+
+
+STREAMS = [s02_lattice_pairs, s02_lattice_triples, s02_polylines, s02_generated]
 
 
 def replay(ctx, stream, case):
+    if stream == "S02-generated":
+        r = s02_generated(ctx)  # seeded: regenerates the same cases
+        return r.disagreements[0] if r.disagreements else None
     res = StreamResult("replay")
     evaluate(ctx, [tuple(tuple(map(tuple, t)) for t in case["traces"])], res, stream)
     return res.disagreements[0] if res.disagreements else None
